@@ -21,7 +21,7 @@ ASSUMPTIONS = ["ASan+UBSan build of /repo working tree (shift-base disabled)",
                "tags with the special bit set are never created directly by the generator",
                "HDreuse_tagref only applied to non-special elements (documented precondition)"]
 
-TAGS = [1000, 1001, 702, 0x8001]         # 0x8001: user tag without special variant
+TAGS = [1000, 1001, 702, 0x8001, 40000, 65000]   # >= 0x8000: user tags without special variant (incl. far apart)
 REFS = [1, 2, 3, 4, 5, 6, 7, 300, 65534, 65535]
 WILD = 0
 INTERNAL_TAGS = {h4fmt.DFTAG_VERSION, h4fmt.DFTAG_LINKED}
